@@ -8,7 +8,7 @@
    modelled (trusted) base. *)
 From Coq Require Import ZArith List Bool.
 Import ListNotations.
-From Elk Require Import Base.GoSem Model.C25_Sync Proofs.C25_Sync.
+From Elk Require Import Base.GoSem Model.C25_Sync Model.C25_Sched Proofs.C25_Sync Proofs.C25_Sched.
 Open Scope Z_scope.
 
 (* FIFO, exactly once, per channel, fixed or not: at every instant the sequence of values
@@ -208,4 +208,113 @@ Example C25_once_nonvacuous :
                   (3%nat, OCall); (2%nat, OBodyEnd); (4%nat, OCall) (* fast path *); (2%nat, OExit);
                   (1%nat, OEnter); (1%nat, OExit); (3%nat, OEnter); (3%nat, OExit) ] oinit in
   otrace s = [ORet 3; ORet 1; ORet 2; ORet 4; OBodyDone 2; OBody 2] /\ o_done s = true /\ o_locked s = false.
+Proof. vm_compute. repeat split. Qed.
+
+(* ================================================================ the mirrored lock state, blocked calls *)
+
+(* The wrappers keep a mirror of the native lock (RWMutex.writer / RWMutex.readers, Mutex.locked)
+   to decide whether an unlock is legal.  In EVERY reachable state of the micro-step machines
+   (any schedule, any number of threads; Lock/ReadLock = native acquire, THEN mirror update; a
+   call that blocks in the native acquire is a disabled step and has changed nothing): the native
+   holders are exactly the mirrored flag/counter plus the calls between their two halves, and
+   the mirror (plus calls in the middle of releasing) is exactly "lock calls that returned minus
+   unlock calls that succeeded".  So a call blocked in read_lock / lock is never counted. *)
+Theorem C25_mirror_agrees : forall sched,
+  let s := rrun true sched rinit in
+  Z.b2z (r_w s) = Z.b2z (r_wflag s) + Z.of_nat (r_wacq s) + Z.of_nat (r_wrel s) /\
+  Z.of_nat (r_r s) = Z.of_nat (r_rcount s) + Z.of_nat (r_racq s) + Z.of_nat (r_rrel s) /\
+  wheld (rtrace s) = Z.b2z (r_wflag s) + Z.of_nat (r_wrel s) /\
+  rheld (rtrace s) = Z.of_nat (r_rcount s) + Z.of_nat (r_rrel s).
+Proof. exact mirror_agrees. Qed.
+Print Assumptions C25_mirror_agrees.
+
+Theorem C25_mutex_mirror_agrees : forall sched,
+  let s := mrun true sched minit in
+  Z.b2z (m_native s) = Z.b2z (m_flag s) + Z.of_nat (m_acq s) + Z.of_nat (m_rel s) /\
+  mheld (mtrace s) = Z.b2z (m_flag s) + Z.of_nat (m_rel s).
+Proof. exact mutex_mirror_agrees. Qed.
+Print Assumptions C25_mutex_mirror_agrees.
+
+(* The variant "ReadLock bumps the mirrored counter BEFORE the native RLock" (rstep_early) is
+   refuted: a writer holds, one reader is blocked in ReadLock; nobody holds a read lock (no
+   ReadLock has returned, the native lock has no reader) but the mirror says 1, a ReadUnlock by a
+   third thread is accepted without UnlockedError and releases a native read lock nobody holds. *)
+Theorem C25_mirror_early_refuted : exists sched t,
+  let s := rrun_v true sched rinit in
+  rheld (rtrace s) = 0 /\ r_r s = 0%nat /\ r_rcount s = 1%nat /\
+  (exists s', rstep_v true s t RRUnlock = Some s' /\ rtrace s' = rtrace s /\ r_rcount s' = 0%nat) /\
+  existsb rev_fatal (rtrace (rrun_v true (sched ++ [(t, RRUnlock); (t, RRUnlockDone)]) rinit)) = true.
+Proof.
+  exists [(0%nat, RLock); (0%nat, RLockDone); (1%nat, RRLock); (1%nat, RRLockDone) (* blocked *)], 2%nat.
+  vm_compute. repeat split. eexists. repeat split.
+Qed.
+Print Assumptions C25_mirror_early_refuted.
+
+(* Controlled scripts (Model/C25_Sched.v): any list of (thread, call) over any number of threads,
+   calls that block stay blocked as part of the state while the script goes on, releases wake
+   them (Go's discipline: all blocked readers, then one blocked writer, writers pending on
+   readers), every resolution [In (toks, s) (srun false script sinit)] of the "which writer"
+   choices.  At every script boundary the lock state is a state of the proved micro-step
+   machine (so C25_rwmutex_excl applies to it), and the mirrored flag/counter EQUAL the native
+   holders and the number of lock calls that returned and were not released. *)
+Theorem C25_sched_mirror_agrees : forall script toks s,
+  In (toks, s) (srun false script sinit) ->
+  (exists sched, s_lock s = rrun true sched rinit) /\
+  r_wflag (s_lock s) = r_w (s_lock s) /\ r_rcount (s_lock s) = r_r (s_lock s) /\
+  wheld (rtrace (s_lock s)) = Z.b2z (r_w (s_lock s)) /\
+  rheld (rtrace (s_lock s)) = Z.of_nat (r_r (s_lock s)).
+Proof. exact sched_mirror_agrees. Qed.
+Print Assumptions C25_sched_mirror_agrees.
+
+(* Hence, whatever is blocked: read_unlock / unlock by a thread that is not itself blocked
+   returns UnlockedError (and does nothing else) exactly when no read / write lock call has
+   returned without being released, and succeeds otherwise. *)
+Theorem C25_sched_unlock_outcomes : forall script toks s t,
+  In (toks, s) (srun false script sinit) -> sbusy s t = false ->
+  (rheld (rtrace (s_lock s)) = 0 ->
+     scall false s t SRUnlock = [(stp false s t RRUnlock, mkRes (IErr E_RW_UNLOCKED_R) [])]) /\
+  (rheld (rtrace (s_lock s)) > 0 -> forall p, In p (scall false s t SRUnlock) -> sr_imm (snd p) = IOk) /\
+  (wheld (rtrace (s_lock s)) = 0 ->
+     scall false s t SUnlock = [(stp false s t RUnlock, mkRes (IErr E_RW_UNLOCKED_W) [])]) /\
+  (wheld (rtrace (s_lock s)) > 0 -> forall p, In p (scall false s t SUnlock) -> sr_imm (snd p) = IOk).
+Proof. exact sched_unlock_outcomes. Qed.
+Print Assumptions C25_sched_unlock_outcomes.
+
+Theorem C25_mutex_sched_mirror_agrees : forall script toks s,
+  In (toks, s) (xrun script xinit) ->
+  (exists sched, x_lock s = mrun true sched minit) /\
+  m_flag (x_lock s) = m_native (x_lock s) /\ mheld (mtrace (x_lock s)) = Z.b2z (m_native (x_lock s)).
+Proof. exact mutex_sched_mirror_agrees. Qed.
+Print Assumptions C25_mutex_sched_mirror_agrees.
+
+(* No lost wake-up, every script, every run: calls are blocked only while a writer holds or is
+   pending (so once the lock is free nobody is left waiting), and a writer is pending only while
+   the lock is held by readers.  Mutex: Lock calls are blocked only while the mutex is held. *)
+Theorem C25_sched_no_lost_wakeup : forall script toks s,
+  In (toks, s) (srun false script sinit) ->
+  (s_blk s <> [] -> r_w (s_lock s) = true \/ s_pw s <> None) /\
+  (forall x, s_pw s = Some x -> r_w (s_lock s) = false /\ r_r (s_lock s) <> 0%nat).
+Proof. exact sched_no_lost_wakeup. Qed.
+Print Assumptions C25_sched_no_lost_wakeup.
+
+Theorem C25_mutex_sched_no_lost_wakeup : forall script toks s,
+  In (toks, s) (xrun script xinit) -> x_blk s <> [] -> m_native (x_lock s) = true.
+Proof. exact mutex_sched_no_lost_wakeup. Qed.
+Print Assumptions C25_mutex_sched_no_lost_wakeup.
+
+(* the witness script of the refuted ReadLock order: the faithful machine answers UnlockedError,
+   the early-increment machine accepts the read_unlock *)
+Example C25_sched_nonvacuous :
+  map (fun r => map sr_imm (fst r)) (srun false [(0%nat, SLock); (1%nat, SRLock); (2%nat, SRUnlock); (0%nat, SUnlock)] sinit)
+    = [[IOk; IBlocked; IErr E_RW_UNLOCKED_R; IOk]] /\
+  map (fun r => (map sr_woken (fst r), sblocked (snd r)))
+      (srun false [(0%nat, SLock); (1%nat, SRLock); (2%nat, SRUnlock); (0%nat, SUnlock)] sinit)
+    = [([[]; []; []; [1%nat]], [])] /\
+  map (fun r => map sr_imm (fst r)) (srun true [(0%nat, SLock); (1%nat, SRLock); (2%nat, SRUnlock)] sinit)
+    = [[IOk; IBlocked; IOk]] /\
+  (* readers hold, a writer is pending, a new reader blocks behind it; two blocked writers: either may be served *)
+  map (fun r => (map sr_imm (fst r), map sr_woken (fst r), sblocked (snd r)))
+      (srun false [(0%nat, SRLock); (1%nat, SLock); (2%nat, SRLock); (0%nat, SRUnlock); (1%nat, SUnlock)] sinit)
+    = [([IOk; IBlocked; IBlocked; IOk; IOk], [[]; []; []; [1%nat]; [2%nat]], [])] /\
+  length (srun false [(0%nat, SLock); (1%nat, SLock); (2%nat, SLock); (0%nat, SUnlock)] sinit) = 2%nat.
 Proof. vm_compute. repeat split. Qed.
